@@ -309,7 +309,7 @@ from_tokens = Fn(T, 'from_tokens', impl='Command', ret='r', pre_rewrites=ANY,
         ('C01.inv.from_tokens.untouched', '(forall|i: int| 0 <= i < tokens@.len() ==> !lt_like(#[trigger] tokens@[i])) ==> '
                                           'tsv(tokens_new@) == tsv(tokens@) && redirects_from_type@.len() == 0'),
         ('C04.inv.from_tokens.kind', 'redirects_from_type@.len() == 0 || redirects_from_type@ == "<"@ || redirects_from_type@ == "<<<"@'),
-        ('C01+C13+C04+C11.inv.from_tokens.lt_flag_honours_tag', 'has_redirect_from == exists|i: int| 0 <= i < tokens_new@.len() && is_lt(#[trigger] tokens_new@[i])'),
+        ('C01+C13+C04+C11+C05.inv.from_tokens.lt_flag_honours_tag', 'has_redirect_from == exists|i: int| 0 <= i < tokens_new@.len() && is_lt(#[trigger] tokens_new@[i])'),
     ], decreases='tokens_new@.len()')},
     hints={'loop-0-body-entry': 'lemma_tsv_props(tokens_new@, tokens@); reveal_strlit("<"); reveal_strlit("<<<"); '
                                 'assert("<"@.len() == 1 && "<"@[0] == \'<\' && "<<<"@.len() == 3 && "<<<"@[0] == \'<\'); '
